@@ -591,7 +591,9 @@ bool FileManager::writeFile(const std::string& _filename, const MeshT& _mesh) co
         return false;
     }
     writeStream(off, _mesh);
-    return off.good();
+    // flush before judging: write errors only surface then
+    off.close();
+    return !off.fail();
 }
 
 //==================================================
